@@ -15,6 +15,7 @@ STRS = ["red", "#fff", "rgb(1,2,3)", "Arial", "x y", "blue"]
 
 class Check(PropertyCheck):
     id = "C19"
+    zoo = False
     lean_modules = ["Svgbob.Properties.C19"]
     assumptions = [
         "clap's argv parsing, Rust's number parsing, the file system and process exit are outside the model "
